@@ -55,6 +55,28 @@ def verdict(c, cls, halg, by, res, allowed, env=None):
     return None
 
 
+def jarset_verdict(op, line):
+    """jar.validate against the client's published key SET (independent of the model): an accepted request object was verified with the
+    key the DID resolver returned for its kid, and the client named by client_id publishes that very key (same thumbprint) under that kid"""
+    if line != "accept":
+        return None
+    vv = op.get("v", {})
+    sigs = (op.get("info") or {}).get("sigs") or []
+    if len(sigs) != 1:
+        return ("multi-sig", f"a request object with {len(sigs)} signatures was accepted")
+    kid = sigs[0].get("kid", "")
+    if not vv.get("keyfound") or not vv.get("verified") or not vv.get("fits"):
+        return ("unsigned", "accepted although the signature does not verify with the key the DID resolver returns for the kid")
+    if not vv.get("clientid"):
+        return ("client-id-mismatch", "accepted although the client_id claim is not the client_id of the request")
+    under_kid = [e for e in vv.get("set", []) if e.get("kid") == kid]
+    if not any(e.get("tp") and e.get("tp") == vv.get("signertp") for e in under_kid):
+        return ("client-key-set-ignored", f"request object signed by {kid!r} accepted although the client's published key set "
+                f"({[(e.get('kid'), e.get('tp')) for e in vv.get('set', [])]}) does not hold the signer key (thumbprint {vv.get('signertp')}) under that kid: "
+                + ("the kid is not published at all" if not under_kid else "another key is published under the kid"))
+    return None
+
+
 def jwk_object_verdict(c, vv, line):
     """clause (e) on the embedded JWK OBJECT (independent of the model): a jwk with secret material (`d` member, or an octet key)
     is never accepted; the DAG parser refuses every one of them at its type switch, dpop's probe every RSA / EC / octet / Ed25519 one"""
@@ -134,7 +156,7 @@ def bytes_oracle(op, line, derived):
 
 def run(ctx):
     facts = ctx.facts() or {}
-    thms = ctx.build_and_audit(["NutsProofs.Props.C17", "NutsProofs.Props.C17Framing", "NutsProofs.Props.C17Fold", "NutsProofs.Props.C17Kid", "NutsProofs.Props.C17LdBytes"])
+    thms = ctx.build_and_audit(["NutsProofs.Props.C17", "NutsProofs.Props.C17Framing", "NutsProofs.Props.C17Fold", "NutsProofs.Props.C17Kid", "NutsProofs.Props.C17LdBytes", "NutsProofs.Props.C17Jar"])
     required = ["allowed_lists_asymmetric", "accept_parseJWT", "accept_parseJWS", "accept_dpop", "accept_dagTx", "accept_dagTx_partial", "accept_dagTx_of_fact",
                 "fact_dag_rejects_private_jwk", "fact_dag_framing_body", "fact_dag_kid_xor_jwk", "fact_alg_fits_key", "fits_is_the_algorithm_of_the_curve", "fact_verifiers_hold_no_key_state", "key_is_current_resolution",
                 "accept_apiToken", "accept_jar", "accept_vcJwt", "accept_vcJsonLd", "fact_vcJsonLd", "fact_wiring", "accept_authzV1", "accept_ldProof", "fact_authzV1",
@@ -149,7 +171,9 @@ def run(ctx):
                 "json_form_admits_whitespace_variants", "parseTxFraming_pass", "accept_dagTx_bytes", "accepted_dagTx_one_reference", "derived_alg_listed", "derived_alg_fits_nist", "accept_ldProof_derived",
                 "fact_parseJWT", "fact_parseJWS", "fact_dpopParse", "fact_dagTx", "fact_apiToken", "fact_jar_ldproof",
                 "fact_dpop_private_probes", "dag_refuses_exactly_the_secret_jwks", "dpop_private_test_exact", "dpop_private_test_misses_other_okp_curves",
-                "accept_dpopJ", "accept_dagTxJ"]
+                "accept_dpopJ", "accept_dagTxJ",
+                "fact_jar_keyset", "accept_jarSet", "jarSet_unpublished_kid_rejected", "jarSet_first_entry_decides", "jarValidateSet_refines",
+                "jarSet_exit_ok_iff", "loopNoFound_accepts_every_unpublished_kid"]
     for r in required:
         if not any(t.endswith("Props." + r) for t in thms):
             ctx.oblige("thm-present:" + r, False, "theorem missing or its module does not build")
@@ -186,13 +210,14 @@ def run(ctx):
     seen_sig = {}
     accepted_valid = Counter()
     jwk_tests = {"dpopj": Counter(), "dagtxj": Counter()}
+    jarset_exits = Counter()
     reenc = Counter()
     total = total_bad = 0
     samples = []
     replay_c = None
     if ctx.replay:
         txt = open(ctx.replay).read()
-        replay_c = ("c17dag" if ('"hex"' in txt or '"sigalg"' in txt) else "c17jar" if '"jar"' in txt else "c17vc" if ('"vcjwt"' in txt or '"vcld"' in txt or '"vcldfold"' in txt or '"ambig"' in txt or '"resolvekid"' in txt or '"xph"' in txt) else
+        replay_c = ("c17dag" if ('"hex"' in txt or '"sigalg"' in txt) else "c17jar" if ('"jar"' in txt or '"jarset"' in txt) else "c17vc" if ('"vcjwt"' in txt or '"vcld"' in txt or '"vcldfold"' in txt or '"ambig"' in txt or '"resolvekid"' in txt or '"xph"' in txt) else
                     "c17az" if ('"authzv1"' in txt or '"introspect"' in txt) else "c17ld" if '"ldproof"' in txt else "c17")
     for (pkg, files, name) in HARNESSES:
         if replay_c and replay_c != name:
@@ -306,6 +331,9 @@ def run(ctx):
             if c in ("dpopj", "dagtxj"):
                 v = jwk_object_verdict(c, op.get("v", {}), line)
                 jwk_tests[c][line] += 1
+            elif c == "jarset":
+                v = jarset_verdict(op, line)
+                jarset_exits[line] += 1
             else:
                 v = verdict(c, cls, halg, op.get("by", ""), line, allowed, op.get("env"))
             # DAG transactions are content-addressed by their bytes: what is accepted must be a JSON serialisation or
@@ -353,6 +381,10 @@ def run(ctx):
         for c in ("dpopj", "dagtxj"):
             ctx.oblige(f"non-vacuous:{c}-accepts-a-public-jwk-and-refuses-a-private-one(impl)",
                        jwk_tests[c]["passed accept"] > 0 and jwk_tests[c]["refused reject"] > 0, str(dict(jwk_tests[c])))
+        ctx.oblige("non-vacuous:jarset-takes-all-three-exits(impl)",
+                   jarset_exits["accept"] > 0 and jarset_exits["reject:client_id does not own signer key"] > 0 and
+                   jarset_exits["reject:key mismatch between OpenID configuration and signer key"] > 0, str(dict(jarset_exits)))
+        ctx.cov["jarset_exits"] = dict(jarset_exits)
         ctx.oblige("non-vacuous:framingtx-accepts-the-canonical-compact-transaction(impl)", accepted_valid["framingtx"] > 0, str(dict(accepted_valid)))
         ctx.cov["json_serialisations_of_a_signed_transaction_accepted"] = accepted_valid["framingtx-json"]
 
@@ -369,7 +401,9 @@ def run(ctx):
                        "truncations, re-serialised header). Consumers: crypto.ParseJWT, crypto.ParseJWS, dpop.Parse, dag.ParseTransaction+signature verifier "
                        "(kid form and jwk form), tokenV2 middleware, and iam jar.validate (in-package, DID resolver + client key set mocked, 5 client environments per "
                        "variant: publishes the signer key / another key under the kid / not the kid / configuration unavailable / client_id mismatch), and the VC/VP "
-                       "JWT consumer signatureVerifier.jwtSignature (in-package vcr/verifier, DID key resolver mocked). accept/reject vs model; direct oracle on the implementation's accepts. "
+                       "JWT consumer signatureVerifier.jwtSignature (in-package vcr/verifier, DID key resolver mocked). jarset: jar.validate against multi-entry client key sets "
+                       "(empty, kid absent / once / twice with the right key first or second / three times, entries without kid, kid case / space / prefix variants, the signer's key "
+                       "under other kids, 12 random sets) x (client's own request, request signed by another party under ITS OWN resolvable kid, by another client) with the exit taken. accept/reject vs model; direct oracle on the implementation's accepts. "
                        "distinct_nontrivial = distinct (consumer, variant name)")
     ctx.cov["input_distribution"] = {c: dict(t) for c, t in table.items()}
     ctx.cov["reencodings_accepted"] = dict(reenc)
